@@ -160,4 +160,11 @@ theorem C13_source_skeletons :
     Gen.Skel.DB_ReleaseRemoteHaltLock = Expected.Skel.DB_ReleaseRemoteHaltLock :=
   ⟨rfl, rfl, rfl, rfl⟩
 
+/-- further regenerated control skeletons (see Model/ExpectedSkel.lean): DB_WaitPosExact, DB_unsetRemoteHaltLock, DB_HasHaltLock -/
+theorem C13_source_skeletons_2 :
+    Gen.Skel.DB_WaitPosExact = Expected.Skel.DB_WaitPosExact ∧
+    Gen.Skel.DB_unsetRemoteHaltLock = Expected.Skel.DB_unsetRemoteHaltLock ∧
+    Gen.Skel.DB_HasHaltLock = Expected.Skel.DB_HasHaltLock :=
+  ⟨rfl, rfl, rfl⟩
+
 end LiteFSVerif.C13
